@@ -63,6 +63,10 @@ func (f *fb) patch32(off int, v uint32) { f.order().PutUint32(f.b[off:], v) }
 func (f *fb) option(block string, code uint16, val []byte) {
 	f.u16(block+".opt.code", code)
 	f.u16(fmt.Sprintf("%s.opt%d.len", block, code), uint16(len(val)))
+	if n := len(val); n >= 1 && n <= 8 {
+		// short option values (resolution, offsets, counters, flags) are mutation targets too
+		f.fields = append(f.fields, field{len(f.b), n, fmt.Sprintf("%s.opt%d.val", block, code)})
+	}
 	f.raw(val)
 	f.pad4()
 }
@@ -436,6 +440,15 @@ func simC15(c *sim.Ctx) {
 			}
 			vals := []uint64{0, 1, cur - 1, cur + 1, 3, 7, cur + 4, cur - 4, 0x7fffffff, 0x80000000, 0xffffffff, 0xffff, uint64(c.Draw(1 << 16)), cur ^ 0x100}
 			v := vals[c.Draw(len(vals))]
+			if c.Chance(300) {
+				// bit patterns: 2^k, 2^k-1, 2^k+1, also with the field's top bit set
+				// (flag-plus-exponent bytes such as the timestamp resolution)
+				k := uint(c.Draw(fl.size * 8))
+				v = []uint64{1 << k, 1<<k - 1, 1<<k + 1}[c.Draw(3)]
+				if c.Draw(2) == 1 {
+					v |= 1 << uint(fl.size*8-1)
+				}
+			}
 			if (fl.name == "pcap.snaplen" || fl.name == "idb.snaplen") && v > 1<<20 {
 				v = 1 << 20 // a declared snap length licenses the allocation: keep it affordable
 			}
